@@ -88,9 +88,9 @@ class ExpandingDriver:
             self._nh = BloomFilter(self.est, self.fpr).number_hashes
         if self.alt_mode == "perkey":
             if key not in self.hcache:
-                self.hcache[key] = (self.hf or default_fnv_1a)(key, self._nh + self.depth_extra)
+                self.hcache[key] = (self.hf if self.hf is not None else default_fnv_1a)(key, self._nh + self.depth_extra)
             return self.hcache[key]
-        hs = (self.hf or default_fnv_1a)(key, self._nh + self.depth_extra)
+        hs = (self.hf if self.hf is not None else default_fnv_1a)(key, self._nh + self.depth_extra)
         if self.alt_mode == "scratch":
             self.scratch[:] = hs
             return self.scratch
